@@ -10,9 +10,9 @@ import progen
 
 IMPORTS = "Base Token TokEngine Lex Headers Blocks Pairing Fold ScanFile"
 
-_LC = ["// c", "//", "// see nocl below", "/* c */", "/* a } b { */", "/**/"]
+_LC = ["// c", "//", "// see nocl below", "/* c */", "/* a } b { */", "/**/", "// page\x0cbreak", "/* a\x85b\u2028c */", "// nbsp\xa0"]
 _BL = ["/* a\n   b\n*/", "/*\n * } nocl is not first\n */", "// a\n// b", "// nocl\n// on lines of their own"]
-LINE_COMMENTS = {"Python": ["# c", "#", "# see nocl below", "#!x"],
+LINE_COMMENTS = {"Python": ["# c", "#", "# see nocl below", "#!x", "# page\x0cbreak", "# a\x85b\u2028c", "# nbsp\xa0"],
                  # the JavaScript / TypeScript lexers type the HTML-style opener as a plain Comment token
                  "JavaScript": _LC + ["<!-- legacy"], "TypeScript": _LC + ["<!-- legacy"],
                  "default": _LC}
@@ -85,8 +85,10 @@ def modify(rng, lang, text):
             kind = rng.random()
             indent = " " * rng.choice([0, 0, 2, 4, 8, 12])
             if kind < 0.3:
-                new = [rng.choice(["", "   ", "\t"])]
-                desc.append(f"blank before {k}")
+                # white-space lines, also of characters that are white space without being ASCII blanks and of
+                # characters str.splitlines() treats as line boundaries although they are no line breaks
+                new = [rng.choice(["", "   ", "\t", "\x0c", " \x0b ", "\xa0", "\u3000\u2003", "\x1c", " \x85", "\u2028"])]
+                desc.append(f"blank ({new[0]!r}) before {k}")
             elif kind < 0.8:
                 new = [indent + rng.choice(styles)]
                 desc.append(f"comment line before {k}")
@@ -103,8 +105,8 @@ def modify(rng, lang, text):
                 continue
             k = rng.choice(cands)
             if rng.random() < 0.5:
-                trailing[k] = "   "
-                desc.append(f"trailing spaces on {k}")
+                trailing[k] = rng.choice(["   ", "   ", "\t", " \xa0", "\u3000", " \x0c"])
+                desc.append(f"trailing white space ({trailing[k]!r}) on {k}")
             else:
                 st = rng.choice([s for s in styles if "\n" not in s])
                 trailing[k] = "  " + st
